@@ -117,6 +117,11 @@ Definition is_some_t (o : oterm) : bool := match o with NoT => false | SomeT _ =
 Definition from_len_gt1 (l : terms) : bool := match l with TCons _ (TCons _ _) => true | _ => false end.
 Definition from0_is_query (l : terms) : bool := match l with TCons (TQuery _) _ => true | _ => false end.
 
+(* QueryBuilder._with_sql marks the clause RECURSIVE when `body.from_ in [names]` is truthy: for a builder body `from_` is a bound method (never
+   equal to a name); for any other body (a set operation, a table) the attribute lookup builds a Field, whose == is a criterion object - truthy *)
+Fixpoint ctes_recursive (l : ctes) : bool :=
+  match l with WNil => false | WCons _ (TQuery _) _ r => ctes_recursive r | WCons _ _ _ _ => true end.
+
 Definition opt_app (o : option str) : str := match o with Some s => s | None => [] end.
 
 (* the resolved GROUP BY entry: SomeT s when the item's alias is one of the selected aliases and s is
@@ -316,7 +321,8 @@ Variables (c0 c : ctx).
 
 Definition with_sql p := match withs with
                       | WNil => Ok ([], p)
-                      | _ => do (ss, p1) <- render_ctes c p withs; Ok (L "WITH " ++ join [44] ss, p1)
+                      | _ => do (ss, p1) <- render_ctes c p withs;
+                             Ok (L "WITH " ++ (if ctes_recursive withs then L "RECURSIVE " else []) ++ join [44] ss, p1)
                       end.
 Definition distinct_sql p :=
         match cls, distinct_on with
